@@ -1901,5 +1901,38 @@ def path_local_term(body, blocks, end, local, start=(0, 0)):
             cur = rv['op']['place']['l']
             k = j
             continue
+        if rv['k'] == 'use' and 'place' in rv['op'] and rv['op']['place']['p']:
+            # a component of a value built earlier ON THIS PATH (`(ret as Some).0` of an inlined helper's `Some(x)`): the operand the
+            # aggregate was built with
+            pl = rv['op']['place']
+            base, kk = pl['l'], j
+            agg = None
+            for _2 in range(16):
+                jj = kk - 1
+                while jj >= 0 and seq[jj][0] != base:
+                    jj -= 1
+                if jj < 0 or seq[jj][2] != 'assign':
+                    break
+                rv2 = seq[jj][3]['rv']
+                if rv2['k'] == 'use' and 'place' in rv2['op'] and not rv2['op']['place']['p']:
+                    base, kk = rv2['op']['place']['l'], jj
+                    continue
+                if rv2['k'] == 'aggr':
+                    agg = (rv2, seq[jj][1], jj)
+                break
+            if agg is not None:
+                (rv2, pt2, jj) = agg
+                projs = [e for e in pl['p']]
+                ok_ = True
+                if projs and isinstance(projs[0], dict) and 'dc' in projs[0]:
+                    ok_ = rv2.get('variant') == projs[0]['dc']
+                    projs = projs[1:]
+                if ok_ and len(projs) == 1 and isinstance(projs[0], dict) and 'f' in projs[0] and projs[0]['f'] < len(rv2.get('ops') or []):
+                    op = rv2['ops'][projs[0]['f']]
+                    if 'place' in op and not op['place']['p']:
+                        cur = op['place']['l']
+                        k = jj
+                        continue
+                    return body.origin.operand(op, pt2)
         return body.origin.rvalue(rv, pt)
     return None
